@@ -1,7 +1,12 @@
 (* Model of callable.go: bigbuff.Call with the options CallArgs, CallResults, CallResultsSlice, and callable.Call.
+   Line numbers refer to /repo/callable.go at HEAD (which CONTAINS the fix commits cba04f9 and d98fcef).
    (CallArgsRaw / CallResultsRaw are out of scope: the only thunks that reach callable.Call here are the ones the three
    validated options build with reflect.MakeFunc, which are non-nil funcs without inputs, so the kind / nil / NumIn checks
-   at callable.go:203-225 always pass on them and are not modelled.)
+   at callable.go:219-242 always pass on them and are not modelled.  Also out of scope: the `not func` error of
+   callable.go:77-79.  The property is about function values, i.e. Callables made by NewCallable, which panics at
+   l.64-69 for anything that is not a non-nil func, and callable.Type() is reflect.Value.Type() of that func, whose Kind
+   is Func: the branch is dead for them.  It can only be taken by a foreign implementation of the Callable interface
+   whose Type() is not a func type; it then returns the error before any option runs and before anything is invoked.)
 
    The reflect package is modelled, not verified: a type universe `ty` with reflect's own tables
      kind       : ty -> kindT          reflect.Type.Kind
@@ -17,12 +22,34 @@
    Nothing is concurrent here.  Executable definitions only; proofs are in Proofs/Callable.v.
 
    Variants, selected by explicit arguments:
-     fixed = false   the code as it is in the repository
-     fixed = true    the minimally repaired pipeline (untyped nil argument accepted iff the parameter kind is nilable and
-                     passed as the zero value of the parameter type; nil result target, more than 128 expanded arguments,
-                     more than 128 results with a results option, and omitted CallArgs for a function with mandatory
-                     parameters give descriptive errors)
-     mut             seeded defects used by the refutation theorems (a validation removed). *)
+     fixed = true    THE CURRENT CODE (/repo HEAD): an untyped nil argument is accepted iff the parameter kind is nilable
+                     and passed as the zero value of the parameter type; a nil result target, more than 128 expanded
+                     arguments, more than 128 results with a results option, and omitted CallArgs for a function with
+                     mandatory parameters give descriptive errors.  (This pipeline was written as "the minimally repaired
+                     pipeline" before the fixes landed; the fixes are cba04f9 - nil arguments / nil targets / omitted
+                     CallArgs / more than 128 arguments - and d98fcef - more than 128 results.)
+     fixed = false   HISTORY: the code before cba04f9 (snapshot 271484f), which panicked on those inputs.
+     mut             seeded defects used by the refutation theorems (a validation removed).
+
+   Order of the checks, fixed = true against callable.go at HEAD, line by line (verified 2026-10-01):
+     resolve_args / check_assign   l.276-304: variadic expansion l.281-286; length l.287-289 (EArgsLen); per argument
+                                   l.290-302: untyped nil -> nilable kind or error l.291-298 (EArgsNil), then
+                                   AssignableTo l.299-301 (EArgsAssign)
+     call_args                     l.95-120: resolveArgs l.98-101; len(in) > 128 l.102-104 (EArgsTooMany); thunk
+                                   l.105-117 (set_arg: reflect.New(in).Elem(), Set only `if args[i] != nil` l.110-113)
+     call_results / check_targets  l.122-160: length l.126-128 (EResLen); len(out) > 128 l.129-131 (EResTooMany); per
+                                   target l.132-148: nil l.133-135 (EResNilTarget), not ptr l.138-140 (EResNotPtr),
+                                   nil ptr l.141-143 (EResNilPtr), AssignableTo l.144-147 (EResAssign); thunk l.149-157
+     call_results_slice            l.162-199: Kind != Ptr l.166-168 (ESliceNotPtr; an untyped nil has Kind Invalid);
+                                   IsNil l.169-171 (ESliceNilPtr); not slice l.172-174 (ESliceNotSlice); len(out) > 128
+                                   l.176-178 (ESliceTooMany); per result AssignableTo l.181-186 (ESliceAssign); thunk
+                                   l.188-196
+     apply_opts / call             l.75-86: options in order, first error returned l.80-84, then caller.Call l.85
+     callable_call                 l.218-258: args omitted and the function has a mandatory input l.247-249
+                                   (ECallArgsMissing; NumIn() > 1 || (NumIn() == 1 && !IsVariadic()) is
+                                   length s_fixed <> 0); in = argsV.Call(nil) l.246; the function l.251; the results
+                                   thunk l.253-255.  (In the code the omitted-args test comes after the kind / nil
+                                   checks of the results thunk l.234-242, which always pass here.) *)
 From Coq Require Import List ZArith Bool Arith.
 Import ListNotations.
 
@@ -112,7 +139,7 @@ Section Variant.
 Variable fixed : bool.
 Variable mut : mutT.
 
-(* ---- resolveArgs (callable.go:257-277), on typesArgs(args) = map vty args ---- *)
+(* ---- resolveArgs (callable.go:276-304), on typesArgs(args) = map vty args ---- *)
 
 (* for i, in := range in { if !args[i].AssignableTo(in) {...} } ; args[i] is a nil reflect.Type for an untyped nil *)
 Fixpoint check_assign (i : nat) (args : list (option ty)) (ins : list ty) : res unit :=
@@ -145,7 +172,7 @@ Definition resolve_args (sg : sig) (args : list (option ty)) : res (list ty) :=
   then bind (check_assign 0 args ins) (fun _ => Ok ins)
   else Err EArgsLen.
 
-(* ---- CallArgs (callable.go:93-112): resolveArgs, then reflect.FuncOf(nil, in, false) + MakeFunc ---- *)
+(* ---- CallArgs (callable.go:95-120): resolveArgs, then reflect.FuncOf(nil, in, false) + MakeFunc ---- *)
 Definition call_args (sg : sig) (args : list val) : res athunk :=
   bind (resolve_args sg (map vty args)) (fun ins =>
     if funcof_max <? length ins
@@ -173,7 +200,7 @@ Fixpoint thunk_vals (ins : list ty) (args : list val) : res (list rval) :=
 Definition run_athunk (th : athunk) : res (list rval) :=
   match th with AThunk ins args => thunk_vals ins args end.
 
-(* ---- CallResults (callable.go:115-146) ---- *)
+(* ---- CallResults (callable.go:122-160) ---- *)
 Fixpoint check_targets (i : nat) (outs : list ty) (targets : list val) : res unit :=
   match outs with
   | [] => Ok tt
@@ -202,7 +229,7 @@ Definition call_results (sg : sig) (targets : list val) : res rthunk :=
               else Ok (RPtrs (s_out sg) targets))
   else Err EResLen.
 
-(* ---- CallResultsSlice (callable.go:149-182) ---- *)
+(* ---- CallResultsSlice (callable.go:162-199) ---- *)
 Fixpoint check_slice_assign (i : nat) (outs : list ty) (e : ty) : res unit :=
   match outs with
   | [] => Ok tt
@@ -223,7 +250,7 @@ Definition call_results_slice (sg : sig) (target : val) : res rthunk :=
              else Ok (RSlice (map (fun _ => e) (s_out sg)) target))
   end.
 
-(* ---- bigbuff.Call (callable.go:72-83): options in order, the first error wins, later options overwrite ---- *)
+(* ---- bigbuff.Call (callable.go:73-86): options in order, the first error wins, later options overwrite ---- *)
 Fixpoint apply_opts (sg : sig) (opts : list copt) (cfg : option athunk * option rthunk)
   : res (option athunk * option rthunk) :=
   match opts with
@@ -315,7 +342,7 @@ Definition run_rthunk (th : rthunk) (outs : list rval) : list store * res unit :
 Definition result_of (r : res unit) : result :=
   match r with Ok _ => ROk | Err e => RErr e | Panic p => RPanic p end.
 
-(* ---- callable.Call (callable.go:201-239); `body` is the user's function ---- *)
+(* ---- callable.Call (callable.go:217-258); `body` is the user's function ---- *)
 Definition callable_call (sg : sig) (body : list rval -> list rval)
            (args : option athunk) (results : option rthunk) : outcome :=
   let missing :=
@@ -440,7 +467,8 @@ Arguments mkOut {ty}. Arguments o_res {ty}. Arguments o_inv {ty}. Arguments o_st
 Arguments pass {ty}. Arguments retype {ty}. Arguments last_args {ty}. Arguments last_results {ty}.
 Arguments param_types {ty}. Arguments expand {ty}.
 
-(* the code as it is / the repaired pipeline *)
+(* [call_fixed] = the current code (/repo HEAD); [call_current] = HISTORY, the code before cba04f9 (the name dates from
+   before the fixes landed and is kept because other files refer to it) *)
 Definition call_current {ty} kind assignable elem := @call ty kind assignable elem false MNone.
 Definition call_fixed {ty} kind assignable elem := @call ty kind assignable elem true MNone.
 
